@@ -450,6 +450,10 @@ type Tx struct {
 	// Spill: pages beyond both the old and the final size that the transaction allocated, that the
 	// page cache spilled to the file, and that were freed again before the commit
 	Spill map[uint32][]byte
+	// NoSync: PRAGMA synchronous=OFF. SQLite (pager.c writeJournalHdr) then writes the journal header with its magic
+	// and a record count of 0xffffffff and never rewrites it; with any other setting the magic and the count are
+	// written as zeros and filled in when the journal is synced, right before the first database write.
+	NoSync bool
 }
 
 var ctx = context.Background()
@@ -487,6 +491,7 @@ func b2u(b bool) uint32 {
 	return 0
 }
 func (r *Rec) CommitJournal(commit uint32) { r.add("OCommitJournal %d", commit) }
+func (r *Rec) InvalidateJournal()          { r.add("OInvalidateJournal") }
 
 // CommitJournalFailed: the commit recorded last was attempted and refused (the journal could not be finalised).
 func (r *Rec) CommitJournalFailed() {
@@ -667,8 +672,10 @@ func (p *Pager) RunRollbackTx(prev *Image, tx Tx, jm JournalMode, outcome Rollba
 		nonce := p.Nonce + uint32(si)*0x9e3779b9 // SQLite draws a fresh checksum nonce for every journal header
 		hdrOff := off
 		hdr := make([]byte, sectorSize)
-		copy(hdr, "\xd9\xd5\x05\xf9\x20\xa1\x63\xd7")
-		binary.BigEndian.PutUint32(hdr[8:], 0) // nRec, rewritten at sync
+		if tx.NoSync {
+			copy(hdr, "\xd9\xd5\x05\xf9\x20\xa1\x63\xd7")
+			binary.BigEndian.PutUint32(hdr[8:], 0xffffffff)
+		} // else: magic and nRec are zeros until the journal is synced
 		binary.BigEndian.PutUint32(hdr[12:], nonce)
 		binary.BigEndian.PutUint32(hdr[16:], uint32(len(prev.Pages)))
 		binary.BigEndian.PutUint32(hdr[20:], uint32(sectorSize))
@@ -707,13 +714,17 @@ func (p *Pager) RunRollbackTx(prev *Image, tx Tx, jm JournalMode, outcome Rollba
 				return err
 			}
 		}
-		// sync: rewrite nRec
-		binary.BigEndian.PutUint32(hdr[8:], uint32(len(seg)))
-		if err := db.WriteJournalAt(ctx, jf, hdr[:12], hdrOff, o); err != nil {
-			unlockAll()
-			return err
+		// sync (syncJournal): magic and nRec are written now - unless the transaction is rolled back before any
+		// database write, in which case SQLite never syncs the journal, or synchronous is OFF
+		if !tx.NoSync && outcome != RollbackBeforeWrite {
+			copy(hdr, "\xd9\xd5\x05\xf9\x20\xa1\x63\xd7")
+			binary.BigEndian.PutUint32(hdr[8:], uint32(len(seg)))
+			if err := db.WriteJournalAt(ctx, jf, hdr[:12], hdrOff, o); err != nil {
+				unlockAll()
+				return err
+			}
+			_ = db.SyncJournal(ctx)
 		}
-		_ = db.SyncJournal(ctx)
 		off = (off + int64(sectorSize) - 1) / int64(sectorSize) * int64(sectorSize)
 	}
 	p.logf("journal recs=%v segments=%d sector=%d", recs, len(segs), sectorSize)
@@ -733,7 +744,11 @@ func (p *Pager) RunRollbackTx(prev *Image, tx Tx, jm JournalMode, outcome Rollba
 		// valid journal header LiteFS treats finalisation as a commit of zero pages.
 		// Real SQLite zeroes/deletes the journal the same way, so this is the faithful sequence.
 		p.logf("rollback-before-write")
-		p.Rec.CommitJournal(uint32(len(prev.Pages)))
+		if tx.NoSync {
+			p.Rec.CommitJournal(uint32(len(prev.Pages))) // the header is complete from the start: a valid journal is finalised
+		} else {
+			p.Rec.InvalidateJournal() // the journal was never synced: its header has no magic yet
+		}
 		err := finalize()
 		unlockAll()
 		return err
